@@ -280,16 +280,21 @@ def ref_ap(tp_values, num_gt):
     return area
 
 
-def ref_heading_agreement(q_est, q_gt, flat=1e-9):
-    """Heading agreement of a pair: 1 - |heading difference| / pi with the difference wrapped into [0, pi].
-
-    Defined here only for boxes standing flat on the ground (pure yaw orientations), where every reading of
-    "heading" coincides; returns None otherwise.
-    """
-    qa, qb = rm.q_normalize(q_est), rm.q_normalize(q_gt)
-    if max(abs(qa[1]), abs(qa[2]), abs(qb[1]), abs(qb[2])) > flat:
+def ref_heading(q):
+    """Heading of a box in the bird's-eye view: direction of its x-axis on the ground plane (None if that axis is
+    close to vertical)."""
+    v = rm.q_rotate(rm.q_normalize(q), (1.0, 0.0, 0.0))
+    if math.hypot(v[0], v[1]) < 0.2:
         return None
-    d = abs(rm.wrap(rm.q_yaw(qa) - rm.q_yaw(qb)))
+    return math.atan2(v[1], v[0])
+
+
+def ref_heading_agreement(q_est, q_gt):
+    """Heading agreement of a pair: 1 - |heading difference| / pi with the difference wrapped into [0, pi]."""
+    ha, hb = ref_heading(q_est), ref_heading(q_gt)
+    if ha is None or hb is None:
+        return None
+    d = abs(rm.wrap(ha - hb))
     return min(1.0, max(0.0, 1.0 - d / math.pi))
 
 
